@@ -91,7 +91,8 @@ fn run_feed(script: &[u8], data: &[u8], feed: &Feed) -> Outcome {
     let mut cfg = match feed {
         Feed::Str => Config::new(&text),
         Feed::File => {
-            let mut c = Config::new(&text);
+            // the bytes are stored into /dev/stdin by `setup` (they need not be valid UTF-8)
+            let mut c = Config::new("");
             c.source = SourceKind::Stdin;
             c
         }
@@ -122,7 +123,12 @@ fn run_feed(script: &[u8], data: &[u8], feed: &Feed) -> Outcome {
                         *content = data.clone();
                     }
                 }
-                Feed::File => {}
+                Feed::File => {
+                    let inode = state.borrow().file_system.get("/dev/stdin").unwrap();
+                    if let FileBody::Regular { content, .. } = &mut inode.borrow_mut().body {
+                        *content = script.clone();
+                    }
+                }
                 Feed::Pipe(sizes, yields) => {
                     let wpid = Pid(1000);
                     let wsys = VirtualSystem { state: Rc::clone(state), process_id: wpid };
@@ -289,17 +295,56 @@ fn observe(script: &[u8], data: &[u8], feed: &Feed) -> Obs {
             items.push(format!("L{}", enc_bytes(l)));
         }
     }
-    // standard error = what `set -v` echoed, then (at most) the report of a syntax error
+    // standard error = what `set -v` echoed, interleaved with error reports (a syntax error ends the
+    // run; a command that is not found — a data line run under `sh -c` — and the two failures of
+    // `read`, invalid UTF-8 and a NUL byte, do not).  A report starts at `error:` (script lines never
+    // contain that text; the last echoed line may lack its newline) and continues over the
+    // following lines of the forms ` --> …`, `  |`, `12 | …`, `...`, `  = note…`.
     let err_text = o.stderr.clone();
-    // (script lines never contain the text `error:`; the last echoed line may lack its newline).
-    // A data line run as a command under `sh -c` is reported as `error: cannot execute …`: that is
-    // not a syntax error.
-    let hits: Vec<usize> = (0..err_text.len().saturating_sub(5))
-        .filter(|&p| err_text[p..].starts_with(b"error:"))
-        .collect();
-    let cut = hits.first().copied().unwrap_or(err_text.len());
-    let err = hits.iter().any(|&p| !err_text[p..].starts_with(b"error: cannot execute"));
-    Obs { items, status: o.exit_status, err, echo: err_text[..cut].to_vec(), stuck: o.stuck }
+    fn report_line(l: &[u8]) -> bool {
+        let t: Vec<u8> = l.iter().copied().skip_while(|&b| b == b' ').collect();
+        if t.starts_with(b"-->") || t.starts_with(b"|") || t.starts_with(b"= ") || t.starts_with(b"...") || t.starts_with(b":::") {
+            return true;
+        }
+        let digits = t.iter().take_while(|b| b.is_ascii_digit()).count();
+        digits > 0 && t[digits..].starts_with(b" |")
+    }
+    let mut echo = vec![];
+    let mut err = false;
+    let mut pos = 0;
+    while pos < err_text.len() {
+        if err_text[pos..].starts_with(b"error:") {
+            let t = &err_text[pos..];
+            if !t.starts_with(b"error: cannot execute")
+                && !t.starts_with(b"error: error reading from the standard input")
+                && !t.starts_with(b"error: input contains a nul byte")
+            {
+                err = true;
+            }
+            // skip the rest of this line and the continuation lines of the report
+            loop {
+                match err_text[pos..].iter().position(|&b| b == b'\n') {
+                    Some(p) => pos += p + 1,
+                    None => {
+                        pos = err_text.len();
+                        break;
+                    }
+                }
+                let end = err_text[pos..]
+                    .iter()
+                    .position(|&b| b == b'\n')
+                    .map(|p| pos + p)
+                    .unwrap_or(err_text.len());
+                if pos >= err_text.len() || !report_line(&err_text[pos..end]) {
+                    break;
+                }
+            }
+        } else {
+            echo.push(err_text[pos]);
+            pos += 1;
+        }
+    }
+    Obs { items, status: o.exit_status, err, echo, stuck: o.stuck }
 }
 
 fn show(o: &Obs) -> String {
@@ -385,8 +430,10 @@ fn oracle(c: &Case, script: &[u8], obs: &Obs) -> String {
         return "FAIL:error-reported-without-syntax-error-status".into();
     }
     if shared {
-        // (2) every offset a command sees is the start of a line
-        for it in &obs.items {
+        // (2) every offset a command sees is the start of a line (for valid UTF-8 input: `read`
+        // stops in the middle of a line when it meets an invalid byte)
+        let valid = std::str::from_utf8(script).is_ok();
+        for it in obs.items.iter().filter(|_| valid) {
             if let Some(o) = offset_of(it) {
                 if !line_start(script, o) {
                     return format!("FAIL:offset-inside-line {o}");
@@ -738,6 +785,42 @@ impl Gen {
             _ => format!("probe \\\n{}", self.m()),
         }
     }
+    /// NUL and invalid UTF-8 bytes: in data lines (`read` fails with status 3; after an invalid
+    /// byte the rest of the line stays on the descriptor and is run as a command), in quoted words,
+    /// comments and here-documents (lossy decoding by the shell's reader)
+    fn raw_unit(&mut self) -> String {
+        let bad = *self.rng.pick(&['\u{E001}', '\u{E002}', '\u{E003}', '\u{E004}', '\u{E005}']);
+        let v = self.var();
+        match self.rng.below(8) {
+            0 => format!("read {v}\na\u{E000}b {}\nprobe {} \"${v}\" $?", self.word(), self.m()),
+            1 => format!("read -r {v}\n{}{bad}: {}\nprobe {} \"${v}\" $?", self.word(), self.word(), self.m()),
+            2 => format!("read {v}\n{}{bad}\nprobe {} \"${v}\" $?", self.word(), self.m()),
+            3 => format!("probe {} 'a{bad}b' x{bad}", self.m()),
+            4 => format!("probe {} \"{}{bad}\" # {bad} \u{E000} fi", self.m(), self.word()),
+            5 => {
+                self.here += 1;
+                let h = self.here;
+                let w = self.word();
+                format!("cat <<E{h}\nh {bad}x\u{E000}y {w}\nE{h}")
+            }
+            6 => format!("probe {} a\u{E000}b '\u{E000}'", self.m()),
+            _ => format!("read {v}; probe {} $?\n{bad}{bad}", self.m()),
+        }
+    }
+    /// an alias whose replacement leaves the command unfinished: the parser pulls the following lines
+    fn alias_open_unit(&mut self) -> String {
+        let k = 1 + self.rng.below(3);
+        if !self.aliases.contains(&k) {
+            self.aliases.push(k);
+        }
+        match self.rng.below(5) {
+            0 => format!("alias a{k}='if st 0; then'\na{k}\nprobe {}\nfi", self.m()),
+            1 => format!("alias a{k}='probe {} &&'\na{k}\nprobe {}", self.m(), self.m()),
+            2 => format!("alias a{k}='{{'\na{k} probe {}\n}}", self.m()),
+            3 => format!("alias a{k}='st 1 ||'\na{k}\n\n# c\nprobe {}", self.m()),
+            _ => format!("alias a{k}='while st 1; do'\na{k} probe {}; done; a{k}\nprobe {}\ndone", self.m(), self.m()),
+        }
+    }
     fn blank_unit(&mut self) -> String {
         (*self.rng.pick(&["", "# a comment line", "   ", "\t# fi", "# あ€ 😀é done"])).to_string()
     }
@@ -788,6 +871,10 @@ impl Gen {
             format!("probe {m} \"open\nstill open"),
             format!("{{ probe {m}\n)"),
             format!("probe {m} | |"),
+            format!("probe {m} \"a\\\nb"),
+            format!("probe {m} 'x\n\n"),
+            format!("cat <<EOT; probe {m} 'q\nh\nEOT\nstill quoted"),
+            format!("a1 'open"),
         ];
         pool[self.rng.below(pool.len())].clone()
     }
@@ -801,7 +888,12 @@ impl Gen {
             15 | 16 => self.heredoc(),
             17 => self.quoted_unit(),
             18 => self.blank_unit(),
-            _ => self.line(),
+            _ => match self.rng.below(4) {
+                0 => self.raw_unit(),
+                1 => self.alias_open_unit(),
+                2 => self.quoted_unit(),
+                _ => self.line(),
+            },
         }
     }
     fn script(&mut self) -> Vec<Vec<u8>> {
@@ -822,7 +914,7 @@ impl Gen {
             .iter()
             .enumerate()
             .map(|(i, u)| {
-                let mut b = u.as_bytes().to_vec();
+                let mut b = raw_bytes(u);
                 if !(i == last && drop_nl && !u.is_empty()) {
                     b.push(b'\n');
                 }
@@ -830,6 +922,28 @@ impl Gen {
             })
             .collect()
     }
+}
+
+/// private-use placeholders in generated text stand for bytes that are not valid UTF-8 text:
+/// U+E000 = NUL, U+E001 = E2 82 (a truncated three-byte sequence), U+E002 = FF, U+E003 = C3 (a lead
+/// byte alone), U+E004 = 80 (a continuation byte alone), U+E005 = F0 9F 98 (truncated four-byte)
+fn raw_bytes(text: &str) -> Vec<u8> {
+    let mut out = vec![];
+    for ch in text.chars() {
+        match ch {
+            '\u{E000}' => out.push(0),
+            '\u{E001}' => out.extend_from_slice(&[0xE2, 0x82]),
+            '\u{E002}' => out.push(0xFF),
+            '\u{E003}' => out.push(0xC3),
+            '\u{E004}' => out.push(0x80),
+            '\u{E005}' => out.extend_from_slice(&[0xF0, 0x9F, 0x98]),
+            c => {
+                let mut buf = [0u8; 4];
+                out.extend_from_slice(c.encode_utf8(&mut buf).as_bytes());
+            }
+        }
+    }
+    out
 }
 
 fn feeds_for(rng: &mut Rng, len: usize, thorough: bool) -> Vec<String> {
@@ -876,9 +990,12 @@ fn main() {
     let args: Vec<String> = std::env::args().collect();
     if args.get(1).map(|s| s.as_str()) == Some("--run") {
         let feed = parse_feed(&args[2]).expect("feed");
-        let script = args[3].clone();
+        let script: Vec<u8> = match args[3].strip_prefix("hex:") {
+            Some(h) => dec_bytes(h).expect("hex"),
+            None => args[3].clone().into_bytes(),
+        };
         let data = args.get(4).cloned().unwrap_or_default();
-        let o = run_feed(script.as_bytes(), data.as_bytes(), &feed);
+        let o = run_feed(&script, data.as_bytes(), &feed);
         println!(
             "--stdout\n{}--stderr\n{}--exit {} stuck {}",
             o.stdout_str(),
@@ -978,8 +1095,20 @@ fn main() {
         &["while read v1; do probe m1 $v1; done\n€\n😀😀\nあ\\\né\n"],
         &["cat <<E1; read v2\nh あ€\nE1\n😀 é\n", "probe m1 \"$v2\"\n", "fi\n"],
     ];
-    for units in utf_scripts {
-        let us: Vec<Vec<u8>> = units.iter().map(|u| u.as_bytes().to_vec()).collect();
+    // thin branches fed with a boundary at every byte position: here-documents split across reads,
+    // line continuation at a chunk boundary, an alias whose replacement consumes the next line, end of
+    // input inside a quote, NUL and invalid UTF-8 bytes in data and in script text
+    let edge_scripts: [&[&str]; 7] = [
+        &["cat <<E1; cat <<E2\nh1 é\nE1\nE2x\nE2\n", "probe m1\n"],
+        &["probe m1 a\\\nb \"c\\\nd\"\n", "read v1\nx\\\ny\n", "probe m2 $v1\n"],
+        &["alias a1='probe m1 &&'\n", "a1\nprobe m2\n", "alias a2='if st 0; then'\n", "a2\nprobe m3\nfi\n"],
+        &["probe m1\n", "probe m2 'open\nstill"],
+        &["read v1\na\u{E000}b\n", "probe m1 \"$v1\" $?\n", "read v2\nx\u{E001}y: z\n", "probe m2 \"$v2\" $?\n"],
+        &["probe m1 'a\u{E001}b' \u{E002}\u{E000} # \u{E005}\n", "cat <<E\n\u{E003}\u{E004}\nE\n"],
+        &["if st 0; then\ncat <<E\nh\nE\nread v1\nfi\nd1 \\\nd2\n", "probe m1 \"$v1\""],
+    ];
+    for units in utf_scripts.iter().chain(edge_scripts.iter()) {
+        let us: Vec<Vec<u8>> = units.iter().map(|u| raw_bytes(u)).collect();
         let len: usize = us.iter().map(|u| u.len()).sum();
         emit_case(case_text("file", &data, &us));
         emit_case(case_text("pipe:1:1", &data, &us));
